@@ -1,14 +1,15 @@
 #!/bin/sh
 # usage: tools/try_seed.sh <patch.diff> [properties...]   -- applies the patch to /repo, runs the quick checks, undoes it
 patch=$1; shift
+REPO=${REPO:-/repo}
 props=${*:-$(python3 -c "import json;print(' '.join(c['property_id'] for c in json.load(open('/verif/MANIFEST.json'))['checks']))")}
-cd /repo || exit 2
-git diff --quiet || { echo "/repo not clean"; exit 2; }
+cd $REPO || exit 2
+git diff --quiet || { echo "$REPO not clean"; exit 2; }
 git apply "$patch" 2>/dev/null || git apply -C1 "$patch" || { echo "patch does not apply"; exit 2; }
 cd /verif
 for p in $props; do
-  out=$(bin/jsonsa check -property $p -tier quick -repo /repo -verif /tmp/seedrun 2>&1); r=$?
+  out=$(bin/jsonsa check -property $p -tier quick -repo $REPO -verif /tmp/seedrun 2>&1); r=$?
   if [ $r -ne 0 ]; then echo "== $p exit=$r"; echo "$out" | grep -E '^  violation|UNDECIDED' | cut -c1-300; fi
 done
-git -C /repo checkout -- . ; git -C /repo status --short | head -3
+git -C $REPO checkout -- . ; git -C $REPO status --short | head -3
 rm -rf /tmp/seedrun
